@@ -3,6 +3,7 @@ SPECIFICATION Spec
 CONSTANTS
   Shapes <- ShapesW2
   StepVals <- Steps12
+  Broadcast = FALSE
   MaxSlices = 2
   MaxWrites = 1
   MaxReshapes = 0
